@@ -110,6 +110,13 @@ Theorem C04_attaching_during_an_open_update_gets_the_empty_record : forall c ts 
     Forall is_access pre /\ m_w m' = m_w m.
 Proof. exact attach_inflight_machine. Qed.
 
+(* the premise in terms of what the daemon was doing: the first generation store of every update carries
+   an odd value - through the wrap, after any crash/restart pattern - so whenever the latest generation
+   event is such a store (the update is open) the two theorems above apply *)
+Theorem C04_open_update_has_an_odd_generation : forall c ts m o q e, safe_cfg c = true -> Forall real_token ts ->
+  m_run (m_init c) ts = (m, o) -> ev (w_log (m_w m)) q = Some e -> e_kind e = KOdd -> Z.odd (e_val e) = true.
+Proof. exact open_update_is_odd. Qed.
+
 End General.
 
 (* the hypotheses are met: the daemon dies six accesses into its second update, another one is started over
